@@ -25,6 +25,13 @@ RULE = ('random operation histories (length 30-200) over a pool of up to 6 '
         'from two trees / sections, confirmed behaviourally. Non-trivial = '
         'history touches >= 3 trees; distinct = fingerprint of the history '
         'seed.')
+RULE += (
+         ' Also: options keys a parsed header carries (length, format, '
+         'version ...) set directly before observers run; nested '
+         'default_value of content-section subclasses must not be shared '
+         'between instances or with the class. Process axes (DESIGN 2.8): 2 '
+         'of 16 shards run under python -O, 4 of 16 after a hostile warm-up '
+         'of the library.')
 FLOOR = {'quick': 1000, 'thorough': 30000}
 REQUIRED_REACH = ['dom/reader.py:', 'dom/writer.py:']
 REQUIRED_COUNTERS = ['structure_invariants_checked', 'op:edit_lists_in_place',
